@@ -261,7 +261,7 @@ fn gen_hs(run: &mut Run, prop: &str, seed: u64, thorough: bool) {
                                 },
                             };
                             // spread the kinds over scenarios, `nfaults` per scenario
-                            let take = if matches!(prop, "C03" | "C14" | "C10" | "C07" | "C06" | "C19" | "C11") && (thorough || pi % 2 == rep % 2 || prop == "C03") { chosen.len() } else { nfaults.min(chosen.len()) };
+                            let take = if matches!(prop, "C03" | "C14" | "C10" | "C07" | "C06" | "C19" | "C11" | "C17") && (thorough || pi % 2 == rep % 2 || prop == "C03" || prop == "C17") { chosen.len() } else { nfaults.min(chosen.len()) };
                             let mut idx = 0;
                             while idx < take {
                                 let mut c = cfg.clone();
